@@ -65,3 +65,41 @@ fn c08_failed_play_does_not_leak_a_slot() {
 	kani::cover!(fail, "w:failed-first");
 	std::mem::forget(track); std::mem::forget(handle); std::mem::forget(r); std::mem::forget(r2);
 }
+
+// ---- C02: the main track's own sum ------------------------------------------------------------------
+struct KvVal { v: f32 }
+impl Sound for KvVal {
+	fn process(&mut self, out: &mut [Frame], _dt: f64, _info: &Info) { out.fill(Frame::new(self.v, -self.v)); }
+	fn finished(&self) -> bool { false }
+}
+
+// @h prop=C02 tier=quick kind=main timeout=600
+// @bounds real MainTrack with two probe sounds (symbolic small-integer DC levels) placed in its arena, volume 0 dB or -60 dB (symbolic); one chunk of 2 frames into a bus that already carries a symbolic small-integer signal (the sub-tracks' sum)
+// @funcs MainTrack::process
+// @catches the main track overwriting instead of adding to the bus; a sound mixed twice; scratch not cleared between sounds; main volume skipped or applied to the sounds only
+// @requires kv_main_track_peek.rs
+#[kani::proof]
+#[kani::unwind(4)]
+fn c02_main_track_adds_its_sounds_to_the_bus_then_applies_its_volume() {
+	let sm = || { let v: i8 = kani::any(); kani::assume(v >= -4 && v <= 4); v as f32 };
+	let (a, b, bus) = (sm(), sm(), sm());
+	let silent: bool = kani::any();
+	let mut builder = MainTrackBuilder::new().sound_capacity(2);
+	builder.volume = crate::Value::Fixed(if silent { Decibels::SILENCE } else { Decibels::IDENTITY });
+	let (mut track, handle) = builder.build(2);
+	track.kv_place_sound(Box::new(KvVal { v: a }));
+	track.kv_place_sound(Box::new(KvVal { v: b }));
+	let clocks: atomic_arena::Arena<crate::clock::Clock> = atomic_arena::Arena::new(0);
+	let modulators: atomic_arena::Arena<Box<dyn crate::modulator::Modulator>> = atomic_arena::Arena::new(0);
+	let listeners: atomic_arena::Arena<crate::listener::Listener> = atomic_arena::Arena::new(0);
+	let info = Info::new(&clocks, &modulators, &listeners, None);
+	let mut out = [Frame::new(bus, bus); 2];
+	track.process(&mut out, 0.25, &info);
+	let want_l = if silent { 0.0 } else { bus + a + b };
+	let want_r = if silent { 0.0 } else { bus - a - b };
+	assert!(out[0].left == want_l && out[0].right == want_r && out[1].left == want_l && out[1].right == want_r,
+		"main output = (what the other tracks put on the bus + the main track's own sounds) x the main volume");
+	assert!(track.temp_buffer[0] == Frame::ZERO && track.temp_buffer[1] == Frame::ZERO, "scratch buffer left zero");
+	kani::cover!(!silent && bus != 0.0 && a != 0.0, "w:audible");
+	std::mem::forget(track); std::mem::forget(handle); std::mem::forget(clocks); std::mem::forget(modulators); std::mem::forget(listeners);
+}
